@@ -48,7 +48,7 @@ def analyse_method(repo, res, prop, cname, fi, directed, writer_names, trusted=(
     n_paths = 0
     seen = set()
     for val in valuations(fi.node, with_strings=True):
-        ma = MethodAnalysis(repo, fi, directed, val, trusted_params=trusted, writer_methods=writer_names)
+        ma = MethodAnalysis(repo, fi, directed, val, trusted_params=trusted, writer_methods=writer_names, cname=cname)
         ma.helper_post = lambda m, cname=cname: helper_postcondition(repo, cname, m, directed, writer_names)
         try:
             ma.run()
@@ -57,6 +57,7 @@ def analyse_method(repo, res, prop, cname, fi, directed, writer_names, trusted=(
         except Unsupported as e:
             raise AnalysisError(str(e))
         n_paths += 1
+        INLINED.setdefault((repo.digest(), cname), set()).update(ma.inlined)
         bal = Balance(ma)
         vdesc = describe_valuation(val)
         evs = [e for e in ma.events if e.rel != "CALL"]
@@ -134,6 +135,7 @@ def analyse_method(repo, res, prop, cname, fi, directed, writer_names, trusted=(
 
 _CALLEE_CACHE = {}
 _POST_CACHE = {}
+INLINED = {}  # class name -> private helpers whose events were analysed inside their callers
 
 
 def helper_postcondition(repo, cname, mname, directed, writer_names):
@@ -142,7 +144,7 @@ def helper_postcondition(repo, cname, mname, directed, writer_names):
     callee = repo.find_method(ci, mname)
     if callee is None or not mname.startswith("_") or mname.startswith("__"):
         return []
-    key = (callee.fq, directed)
+    key = (repo.digest(), callee.fq, directed)
     if key in _POST_CACHE:
         return _POST_CACHE[key]
     _POST_CACHE[key] = []
@@ -172,7 +174,7 @@ def callee_may_raise(repo, cname, mname, validated, directed, writer_names, dept
         return True
     params = callee.params[1:]
     trusted = tuple(p for p, v in zip(params, validated) if v)
-    key = (callee.fq, trusted, directed)
+    key = (repo.digest(), callee.fq, trusted, directed)
     if key in _CALLEE_CACHE:
         return _CALLEE_CACHE[key]
     _CALLEE_CACHE[key] = True
@@ -222,12 +224,21 @@ def run_class(ctx, res, prop, cname, directed, floor_direct, skip=()):
     writer_names = set(direct) | set(indirect)
     n = 0
     paths = 0
-    for mname, fi in direct.items():
+    calls_helpers = {m: f for m, f in indirect.items() if any(isinstance(c, ast.Call) and isinstance(c.func, ast.Attribute) and isinstance(c.func.value, ast.Name) and c.func.value.id == f.params[0] and c.func.attr.startswith("_") and not c.func.attr.startswith("__") and c.func.attr in writer_names for c in ast.walk(f.node))}
+    todo = {**calls_helpers, **direct}
+    ordered = sorted(todo.items(), key=lambda kv: (kv[0].startswith("_") and not kv[0].startswith("__"), kv[0]))
+    for mname, fi in ordered:
         if ctx.only and ctx.only not in (fi.qualname, f"{cname}.{mname}"):
             continue
         if mname in skip:
             continue
-        n += 1
+        if mname.startswith("_") and not mname.startswith("__") and mname in INLINED.get((repo.digest(), cname), ()):
+            if mname in direct:
+                n += 1
+            res.inst("R-EXIT", f"{cname}.{mname}: private helper analysed inside its callers (events inlined at every call site)", True)
+            continue
+        if mname in direct:
+            n += 1
         if mname in COARSE:
             check_coarse(repo, eng, res, prop, cname, fi)
             res.info.append({"coarse_rule_only": f"{cname}.{mname}", "reason": COARSE[mname]})
@@ -310,15 +321,23 @@ def run_class_with_helpers(ctx, res, prop, cname, directed, floor_direct, skip=(
     res.extra["helper_call_sites"] = census
     n = 0
     paths = 0
-    for mname, fi in methods.items():
+    # public methods first: private helpers they call are analysed inside them (inlined); a helper is analysed on its
+    # own only if no caller inlined it
+    ordered = sorted(methods.items(), key=lambda kv: (kv[0].startswith("_") and not kv[0].startswith("__"), kv[0]))
+    for mname, fi in ordered:
         if ctx.only and ctx.only not in (fi.qualname, f"{cname}.{mname}"):
+            continue
+        if mname.startswith("_") and not mname.startswith("__") and mname in INLINED.get((repo.digest(), cname), ()):
+            if mname in direct:
+                n += 1
+            res.inst("R-EXIT", f"{cname}.{mname}: private helper analysed inside its callers (events inlined at every call site)", True)
             continue
         if mname in COARSE:
             if mname in direct:
                 n += 1
                 check_coarse(repo, eng, res, prop, cname, fi)
             continue
-        calls_helper = any(isinstance(c, ast.Call) and isinstance(c.func, ast.Attribute) and isinstance(c.func.value, ast.Name) and c.func.value.id == fi.params[0] and c.func.attr in contracts for c in ast.walk(fi.node))
+        calls_helper = any(isinstance(c, ast.Call) and isinstance(c.func, ast.Attribute) and isinstance(c.func.value, ast.Name) and c.func.value.id == fi.params[0] and c.func.attr in writer_names and c.func.attr.startswith("_") and not c.func.attr.startswith("__") for c in ast.walk(fi.node))
         if mname not in direct and not calls_helper:
             continue
         if mname in direct:
